@@ -241,3 +241,35 @@ def add_neg_zero(a, b, negate_b):
     """IEEE 754 6.3: a zero sum is -0 only when both addends are -0 (an exact cancellation x + (-x) is +0)"""
     sb = (not b._real._s) if negate_b else b._real._s
     return fin(a) and fin(b) and a._real._c == 0 and b._real._c == 0 and a._real._s and sb
+
+
+# ---------------------------------------------------------------------------
+# products
+
+FLOAT_CONV = 2 ** 1000
+
+
+def small(A):
+    """int fields small enough to be mixed with the float sentinels (`int + float('-inf')` converts the int
+    to a double first and raises OverflowError beyond ~2^1024)"""
+    return ((True if is_fl(A.exp) else (-FLOAT_CONV < A.exp and A.exp < FLOAT_CONV))
+            and (True if is_fl(A.prec) else A.prec < FLOAT_CONV))
+
+
+def mul_nan(a, b):
+    a_zero = fin(a) and a._real._c == 0
+    b_zero = fin(b) and b._real._c == 0
+    return a._isnan or b._isnan or (a._isinf and b_zero) or (b._isinf and a_zero)
+
+
+def mul_inf(a, b):
+    return not mul_nan(a, b) and (a._isinf or b._isinf)
+
+
+def mul_sign(a, b):
+    return a._real._s != b._real._s
+
+
+def mul_neg_zero(a, b):
+    """IEEE 754 6.3: the sign of a product is the XOR of the signs, also for a zero product"""
+    return fin(a) and fin(b) and (a._real._c == 0 or b._real._c == 0) and mul_sign(a, b)
